@@ -430,10 +430,10 @@ check('C17', custom=c17_custom, progs=[('mt_stress', [1, 2, 3, 8])], level='expl
 
 # ----------------------------------------------------------------------------- C03: sanitizers over every generator
 C03_REPLAY = [  # (program, capacities, extra sources, divisor of the random budget)
-    ('chk_C03', [1, 2, 3, 8], ['engine.c'], 1), ('chk_C01', [2], ['engine.c'], 4), ('chk_C02', [1], [], 4), ('chk_C04', [1], ['argcheck.c'], 4), ('chk_C05', [1], ['argcheck.c'], 4),
-    ('chk_C06', [2], [], 4), ('chk_C07', [1], [], 8), ('chk_C08', [2], ['engine.c'], 4), ('chk_C09', [1], [], 4), ('chk_C10', [2], [], 4), ('chk_C11', [3], ['engine.c'], 4),
-    ('chk_C12', [2], ['engine.c'], 8), ('chk_C13', [1, 3], [], 4), ('chk_C14', [2], ['engine.c'], 4), ('chk_C15', [8], ['engine.c'], 4), ('chk_C16', [2], [], 16), ('chk_C18', [2], ['engine.c'], 4),
-    ('chk_C19', [1], [], 4), ('chk_C20', [1], ['engine.c'], 4)]
+    ('chk_C03', [1, 2, 3, 8], ['engine.c'], 1), ('chk_C01', [2], ['engine.c'], 12), ('chk_C02', [1], [], 12), ('chk_C04', [1], ['argcheck.c'], 16), ('chk_C05', [1], ['argcheck.c'], 16),
+    ('chk_C06', [2], [], 12), ('chk_C07', [1], [], 24), ('chk_C08', [2], ['engine.c'], 12), ('chk_C09', [1], [], 12), ('chk_C10', [2], [], 12), ('chk_C11', [3], ['engine.c'], 12),
+    ('chk_C12', [2], ['engine.c'], 24), ('chk_C13', [1, 3], [], 12), ('chk_C14', [2], ['engine.c'], 12), ('chk_C15', [8], ['engine.c'], 12), ('chk_C16', [2], [], 16), ('chk_C18', [2], ['engine.c'], 12),
+    ('chk_C19', [1], [], 12), ('chk_C20', [1], ['engine.c'], 12)]
 
 def san_key(stderr):
     import re
